@@ -47,3 +47,10 @@ Theorem c05_no_callout_under_lock : forall f, In f g_funcs ->
                 g_reads h = false /\ g_writes h = false /\ g_user h = false.
 Proof. exact CallGraph.no_callout_under_lock. Qed.
 Print Assumptions c05_no_callout_under_lock.
+
+(* the locks are always taken in one global order (over the regenerated call graph): B is acquired while A is held,
+   directly or below a callee, only if A comes before B in lock_rank -- so the relation is acyclic *)
+Theorem c05_lock_order_acyclic : forall a b, In (a, b) g_lock_order ->
+  exists i j, index_of a lock_rank = Some i /\ index_of b lock_rank = Some j /\ (i < j)%nat.
+Proof. exact CallGraph.lock_order_acyclic. Qed.
+Print Assumptions c05_lock_order_acyclic.
